@@ -5,7 +5,8 @@ import (
 	"errors"
 	"fmt"
 	"net/http"
-	"regexp"
+	"strconv"
+	"strings"
 	"time"
 
 	"github.com/oauth2-proxy/oauth2-proxy/v7/pkg/apis/options"
@@ -77,14 +78,11 @@ func (s *SessionStore) Clear(rw http.ResponseWriter, req *http.Request) error {
 // (CookieName, CookieName_<number>) present on the request whose name is not
 // in the keep set
 func (s *SessionStore) clearCookiesExcept(rw http.ResponseWriter, req *http.Request, keep map[string]struct{}) {
-	// matches CookieName, CookieName_<number>
-	var cookieNameRegex = regexp.MustCompile(fmt.Sprintf("^%s(_\\d+)?$", regexp.QuoteMeta(s.Cookie.Name)))
-
 	for _, c := range req.Cookies() {
 		if _, ok := keep[c.Name]; ok {
 			continue
 		}
-		if cookieNameRegex.MatchString(c.Name) {
+		if isSessionCookieName(s.Cookie.Name, c.Name) {
 			clearCookie := s.makeCookie(req, c.Name, "", time.Hour*-1)
 
 			http.SetCookie(rw, clearCookie)
@@ -211,6 +209,24 @@ func splitCookie(c *http.Cookie) []*http.Cookie {
 		cookies = append(cookies, newCookie)
 	}
 	return cookies
+}
+
+// isSessionCookieName reports whether candidate is the session cookie name
+// or the name of one of its split parts, exactly as splitCookieName generates
+// them (including the truncation of long names)
+func isSessionCookieName(name string, candidate string) bool {
+	if candidate == name {
+		return true
+	}
+	idx := strings.LastIndex(candidate, "_")
+	if idx < 0 {
+		return false
+	}
+	count, err := strconv.Atoi(candidate[idx+1:])
+	if err != nil || count < 0 {
+		return false
+	}
+	return candidate == splitCookieName(name, count)
 }
 
 func splitCookieName(name string, count int) string {
